@@ -290,6 +290,7 @@ type walker struct {
 	ctxStack      []*ctxFrame     // enclosing loops / switches / selects
 	deferred      map[string]bool // mutexes with a deferred Unlock / RUnlock
 	litDepth      int             // inside an inlined function literal
+	mapAlias      map[types.Object]string // local variable := shared map field: uses of the local are accesses to that class
 }
 
 type ctxFrame struct {
@@ -299,6 +300,32 @@ type ctxFrame struct {
 }
 
 func (w *walker) info() *types.Info { return w.a.p.info }
+
+// noteMapAlias: `local := x.field` / `local = x.field` where the field is a tracked shared map
+func (w *walker) noteMapAlias(obj types.Object, rhs ast.Expr) {
+	if w.mapAlias == nil {
+		w.mapAlias = map[types.Object]string{}
+	}
+	delete(w.mapAlias, obj)
+	for {
+		if p, ok := rhs.(*ast.ParenExpr); ok {
+			rhs = p.X
+			continue
+		}
+		break
+	}
+	se, ok := rhs.(*ast.SelectorExpr)
+	if !ok {
+		return
+	}
+	cls, ft, ok := w.classOfSel(se)
+	if !ok || ft == nil || w.localValueBase(se.X) {
+		return
+	}
+	if _, isMap := ft.Underlying().(*types.Map); isMap {
+		w.mapAlias[obj] = cls
+	}
+}
 
 func (w *walker) rootIdent(e ast.Expr) *ast.Ident {
 	for {
@@ -438,6 +465,11 @@ func (w *walker) expr(e ast.Expr, mode int) {
 				return
 			}
 			w.record("global."+v.Name(), mode == mWrite || mode == mAtomicW, mode >= mAtomicR, x, x.Pos(), "")
+		}
+		// a local that aliases a shared map (m := x.field; ... range m / m[k] / delete(m, k)): the map is
+		// shared state whatever it is called, every use is an access with the locks held at the use
+		if cls, ok := w.mapAlias[obj]; ok && obj != nil {
+			w.record(cls, mode == mWrite || mode == mAtomicW, false, x, x.Pos(), "")
 		}
 		// escape of a fresh object used bare
 		if obj != nil && w.fresh[obj] {
@@ -1332,6 +1364,9 @@ func (w *walker) stmt(s ast.Stmt) (term bool) {
 			if x.Tok == token.DEFINE {
 				if id, ok := l.(*ast.Ident); ok {
 					if obj := info.Defs[id]; obj != nil {
+						if len(x.Lhs) == len(x.Rhs) {
+							w.noteMapAlias(obj, x.Rhs[i])
+						}
 						if len(x.Lhs) == len(x.Rhs) && isAlloc(info, x.Rhs[i]) {
 							w.fresh[obj] = true
 							w.everFresh[obj] = true
@@ -1354,6 +1389,7 @@ func (w *walker) stmt(s ast.Stmt) (term bool) {
 				obj := info.Uses[id]
 				if v, ok := obj.(*types.Var); ok && v.Parent() != w.a.p.pkg.Scope() {
 					if len(x.Lhs) == len(x.Rhs) {
+						w.noteMapAlias(obj, x.Rhs[i])
 						if isAlloc(info, x.Rhs[i]) {
 							w.fresh[obj] = true
 							w.everFresh[obj] = true
